@@ -47,6 +47,12 @@ SPECIAL = [
     "with! a:\n    # c\n\n    b\n\n",
     "if z:\n    with! a:\n        b\n        # in the block\n",
     "s = 'é'; $X = ${'ü'}\n",
+    "with! a:\n\tb\n",
+    "if z:\n\twith! a:\n\t\tb\n\t\t# in\n",
+    "  # c\ny = 1\n",
+    "      # deep\n\n# flat\ny = 2\n",
+    "$(echo!)\n",
+    "r = ![pwd!] or $(echo! )\n",
     "'c'\n",
     "p'a' pf'b{c}'\n",
     "pf'a{b}' 'c'\n",
@@ -141,6 +147,11 @@ def check_case(case: Any, acc: Any) -> None:
     if len(idx) == 1:
         acc.count("single")
         return
+    if any(_joins_block(P[a], P[b]) for a, b in zip(idx, idx[1:])):
+        # a with-macro block takes the blank lines after it (the repository's own test pins that) and, like any block, the
+        # comment lines indented as deep as itself: a following part that opens with such lines is not a part of its own
+        acc.count("outside:part-opens-with-lines-of-the-preceding-raw-block")
+        return
     src = "".join(P[i] for i in idx)
     acc.nontrivial(idx)
     st, whole = run.ours(src, "exec")
@@ -172,6 +183,21 @@ def check_case(case: Any, acc: Any) -> None:
                 break
         sig = f"BODY statement-differs part={part} after={_form(P[idx[part - 1]]) if part else 'start'}"
     acc.violation(sig, c, {"got": got[:3], "want": want[:3]}, text=src)
+
+
+def _joins_block(prev: str, nxt: str) -> bool:
+    """prev ends in the block of a with-macro and nxt opens with a blank line or a comment indented at least as deep."""
+    if "with!" not in prev:
+        return False
+    lines = prev.split("\n")
+    head = max(i for i, ln in enumerate(lines) if "with!" in ln)
+    body = [ln for ln in lines[head + 1 :] if ln.strip() and not ln.strip().startswith("#")]
+    if not body:
+        return False  # the one-line form: the macro ends with its line
+    width = lambda ln: len(ln[: len(ln) - len(ln.lstrip())].expandtabs(8))  # noqa: E731
+    block = width(body[0])
+    first = nxt.split("\n")[0]
+    return not first.strip() or (first.strip().startswith("#") and width(first) >= block)
 
 
 def _form(stmt: str) -> str:
